@@ -2,7 +2,7 @@
 from vplib import common, oracle, machine, genprog
 
 LEVEL = "proof"
-RULE = ("Coq: Properties/C08.v (interrupt_transparent; interrupted_run_equiv for every interrupt schedule). Dynamic: for "
+RULE = ("Coq: Properties/C08.v (interrupt_transparent; interrupted_run_equiv for every interrupt schedule; interrupted_run_finishes: liveness, a run that finishes in n iterations finishes with the same result under every schedule with n interrupt-free entries). Dynamic: for "
         "each generated program the uninterrupted run gives N ticks; then the interrupt flag is raised (cfg-gated hook in the "
         "eval loop) at EVERY tick k in 1..N (exhaustive over k), and at random 2- and 3-point schedules, each run resumed "
         "until it finishes; final outcome, error position and complete stdout must equal the uninterrupted run's. A sample is "
@@ -13,7 +13,9 @@ META = {
     "technique": "Coq proof by induction over interrupt schedules on the evaluator model + exhaustive per-tick interrupt injection on the binary",
     "level_text": ("Coq theorem interrupted_run_equiv: for ALL interrupt schedules (any number of Ctrl-C at any loop iterations, "
                    "each answered by :resume) the evaluator model ends with the same value/error/pending state and the same "
-                   "output as an uninterrupted run; an interrupt consumes one iteration and puts the popped expression back. "
+                   "output as an uninterrupted run; an interrupt consumes one iteration and puts the popped expression back; theorem "
+                   "interrupted_run_finishes adds liveness: if the uninterrupted run finishes within n iterations, every schedule with "
+                   "at least n interrupt-free entries (+1 if a Ctrl-C was pending) finishes too, with the same result. "
                    "Tied to eval.rs by injecting the interrupt at every tick of each generated program on the real binary."),
     "level_note": ("Trusted: Coq kernel; hand-written model Machine.v tied by correspondence testing; the injection hook sets "
                    "session.interrupted exactly where Ctrl-C would be observed (the flag check of the eval loop). Not covered: "
